@@ -173,8 +173,8 @@ Section Sound.
         destruct (xmm_leaf f); [apply R_xmm0|].
         destruct (xmm_wrapped f).
         + destruct (Nat.ltb_spec x 8) as [Hx|Hx].
-          * rewrite arch_roundtrip_lower by exact Hx. apply R_xmm0.
-          * rewrite arch_roundtrip_upper by exact Hx. cbn. apply surjective_pairing.
+          * rewrite arch_roundtrip_lower by (try exact Hx; apply Nat.le_min_r). apply R_xmm0.
+          * rewrite arch_roundtrip_upper by (try exact Hx; apply Nat.le_min_r). cbn. apply surjective_pairing.
         + cbn. apply surjective_pairing. }
     (* memory facts for the filtered list *)
     assert (M1 : forall o, lookup m1 o = None -> below (Some (match ahi a with None => p | Some h => Z.max h p end)) o = false ->
